@@ -54,42 +54,15 @@ type Spec struct {
 	Tiers         map[string]TierSpec `json:"tiers"`
 	Covers        []string            `json:"covers"`
 	ReplayRewrite []string            `json:"replay_rewrite"`
-	// Patches are exact textual substitutions applied to /repo's current source (symbolic run and
-	// native run alike) at stub boundaries, e.g. to route a package-level crypto constructor to a
-	// harness stub. A pattern that does not occur exactly once makes the run inconclusive.
-	Patches []PatchSpec `json:"patches"`
+	// SourceRewrite: repo file -> list of [old, new] textual replacements applied to the file's current
+	// content, for the symbolic run (overlay) and the native runs alike (e.g. redirecting time.NewTimer
+	// to a harness-level timer). Every pattern must occur, otherwise the check is inconclusive.
+	SourceRewrite map[string][][2]string `json:"source_rewrite"`
 	Assumptions   []string            `json:"assumptions"`
 	NotCovered    []string            `json:"not_covered"`
 	Stubs         []string            `json:"stubs"`
 	NoopPkgs      []string            `json:"noop_pkgs"`
 	Level         string              `json:"level"`
-}
-
-type PatchSpec struct {
-	File string `json:"file"`
-	Old  string `json:"old"`
-	New  string `json:"new"`
-}
-
-// patchedSources applies spec.Patches to the current /repo files.
-func patchedSources(spec *Spec) (map[string][]byte, error) {
-	out := map[string][]byte{}
-	for _, p := range spec.Patches {
-		path := filepath.Join(repoDir, p.File)
-		src, ok := out[path]
-		if !ok {
-			b, err := os.ReadFile(path)
-			if err != nil {
-				return nil, err
-			}
-			src = b
-		}
-		if n := strings.Count(string(src), p.Old); n != 1 {
-			return nil, fmt.Errorf("patch for %s: pattern occurs %d times (expected once): %q", p.File, n, firstLine(p.Old, 80))
-		}
-		out[path] = []byte(strings.Replace(string(src), p.Old, p.New, 1))
-	}
-	return out, nil
 }
 
 type KnownFinding struct {
@@ -430,14 +403,30 @@ func overlayFor(spec *Spec) (map[string][]byte, error) {
 		}
 		ov[filepath.Join(repoDir, virt)] = src
 	}
-	ps, err := patchedSources(spec)
-	if err != nil {
-		return nil, err
-	}
-	for path, src := range ps {
-		ov[path] = src
+	for f := range spec.SourceRewrite {
+		out, err := rewrittenSource(spec, f)
+		if err != nil {
+			return nil, err
+		}
+		ov[filepath.Join(repoDir, f)] = []byte(out)
 	}
 	return ov, nil
+}
+
+// rewrittenSource applies the spec's source_rewrite entries for repo file f to its current content.
+func rewrittenSource(spec *Spec, f string) (string, error) {
+	raw, err := os.ReadFile(filepath.Join(repoDir, f))
+	if err != nil {
+		return "", err
+	}
+	src := string(raw)
+	for _, r := range spec.SourceRewrite[f] {
+		if !strings.Contains(src, r[0]) {
+			return "", fmt.Errorf("source_rewrite: pattern %q does not occur in %s", r[0], f)
+		}
+		src = strings.ReplaceAll(src, r[0], r[1])
+	}
+	return src, nil
 }
 
 func loadEngine(spec *Spec) (*Engine, error) {
@@ -519,6 +508,7 @@ func explore(eng0 *Engine, cfg Config, in instance, selfMax int, smtlog string) 
 		return res
 	}
 	var mu sync.Mutex
+	violPerClause := map[string]int{}
 	cond := sync.NewCond(&mu)
 	queue := [][]Decision{nil}
 	active := 0
@@ -587,8 +577,13 @@ func explore(eng0 *Engine, cfg Config, in instance, selfMax int, smtlog string) 
 				for _, c := range pr.Covers {
 					res.covers[c] = true
 				}
-				if len(res.violations) < 8 {
-					res.violations = append(res.violations, pr.Violations...)
+				// keep a few violations per clause (a global cap would let the many instances of one
+				// clause, e.g. a known finding, crowd out a violation of another clause)
+				for _, v := range pr.Violations {
+					if violPerClause[v.Clause] < 4 {
+						violPerClause[v.Clause]++
+						res.violations = append(res.violations, v)
+					}
 				}
 				if pr.Witness != nil {
 					res.witnesses = append(res.witnesses, pr.Witness)
@@ -694,25 +689,21 @@ func runNative(spec *Spec, cases []nativeCase) ([]nativeResult, error) {
 	testFile := filepath.Join(tmp, "zz_verif_replay_test.go")
 	os.WriteFile(testFile, []byte(sb.String()), 0o644)
 	replace[filepath.Join(repoDir, strings.TrimPrefix(spec.TestPkg, "./"), "zz_verif_replay_test.go")] = testFile
-	patched, err := patchedSources(spec)
-	if err != nil {
-		return nil, err
+	srcRewritten := map[string]string{}
+	srcFiles := make([]string, 0, len(spec.SourceRewrite))
+	for f := range spec.SourceRewrite {
+		srcFiles = append(srcFiles, f)
 	}
-	k := 0
-	for path, src := range patched {
-		rewritten := false
-		for _, f := range spec.ReplayRewrite {
-			if filepath.Join(repoDir, f) == path {
-				rewritten = true
-			}
+	sort.Strings(srcFiles)
+	for i, f := range srcFiles {
+		out, err := rewrittenSource(spec, f)
+		if err != nil {
+			return nil, err
 		}
-		if rewritten {
-			continue // written below, after the clock rewrite
-		}
-		pp := filepath.Join(tmp, fmt.Sprintf("patched%d.go", k))
-		k++
-		os.WriteFile(pp, src, 0o644)
-		replace[path] = pp
+		srcRewritten[f] = out
+		p := filepath.Join(tmp, fmt.Sprintf("srcrewrite%d.go", i))
+		os.WriteFile(p, []byte(out), 0o644)
+		replace[filepath.Join(repoDir, f)] = p
 	}
 	// time.Now() -> verif.Now() in the listed files (native runs only)
 	for i, f := range spec.ReplayRewrite {
@@ -720,8 +711,8 @@ func runNative(spec *Spec, cases []nativeCase) ([]nativeResult, error) {
 		if err != nil {
 			return nil, err
 		}
-		if ps, ok := patched[filepath.Join(repoDir, f)]; ok {
-			src = ps
+		if s, ok := srcRewritten[f]; ok {
+			src = []byte(s)
 		}
 		out, err := rewriteTimeNow(string(src))
 		if err != nil {
